@@ -14,7 +14,7 @@ PROPERTY = 'C06'
 RULE = ('G_lang languages (inheritance, inherited defenses, duplicate association names, every multiplicity '
         'form) x lists of attempted constructions: defense values from {-0.1,0,0.3,1,1.0001,2} via '
         'constructor or assignment; association objects whose fields get assets of the declared type, a '
-        'sub-type, a super-type or an unrelated type, max and max+1 members, a repeated member, an already '
+        'sub-type, a super-type or an unrelated type, max and max+1 members, an empty side, a repeated member, an already '
         'existing link (same pair in a new object, same object again). Oracle: namespace must expose every '
         'asset and association type with exactly the folded defenses and the two fields; the reference labels '
         'each attempt valid / invalid: valid must be accepted and visible in _to_dict(), invalid must raise '
@@ -240,6 +240,8 @@ def _attempts(n):
         st.tuples(st.just('defense'), small, small, st.integers(0, len(DEF_VALUES) - 1), st.booleans()),
         st.tuples(st.just('assoc'), small, st.lists(st.integers(0, 15), min_size=1, max_size=3),
                   st.lists(st.integers(0, 15), min_size=1, max_size=3)),
+        st.tuples(st.just('assoc'), small, st.lists(st.integers(0, 15), min_size=0, max_size=2),
+                  st.lists(st.integers(0, 15), min_size=0, max_size=2)),
         st.tuples(st.just('assoc'), small, st.lists(st.integers(0, 7).map(lambda x: 2 * x), min_size=1, max_size=2),
                   st.lists(st.integers(0, 7).map(lambda x: 2 * x), min_size=1, max_size=2)),
     ).map(list), min_size=1, max_size=n)
